@@ -66,7 +66,9 @@ TNext ==
          [] e.k = "hreg" ->
               /\ gen' = [gen EXCEPT ![t] = @ + 1] /\ reg' = reg \cup {<<t, gen[t] + 1>>}
               /\ UNCHANGED <<life, must, anyErase, ending, vals, erasing, vis, startSet, inop, fin, target>>
-         [] e.k = "hrel" -> reg' = reg \ {<<t, gen[t]>>} /\ UNCHANGED <<life, gen, must, anyErase, ending, vals, erasing, vis, startSet, inop, fin, target>>
+         \* hrelb: the handle is about to be destroyed: from here on its owner no longer uses the list (its destructor may
+         \* already have cleared the registration when the marker after the destructor, hrel, is logged)
+         [] e.k = "hrelb" -> reg' = reg \ {<<t, gen[t]>>} /\ UNCHANGED <<life, gen, must, anyErase, ending, vals, erasing, vis, startSet, inop, fin, target>>
          [] e.k = "erasing" ->
               /\ erasing' = erasing \cup {e.v} /\ anyErase' = TRUE /\ target' = [target EXCEPT ![t] = e.i]
               /\ UNCHANGED <<life, reg, gen, must, ending, vals, vis, startSet, inop, fin>>
